@@ -67,6 +67,12 @@ def walk(rng, cells, target, nseg, styles, break_prob):
         if valid is None or rng.random() < break_prob:
             kind = rng.choice(styles)
             arg = rng.choice(['new', 'zz', 'a', 5, 0, -1, 'k9'])
+            if isinstance(cur, dict) and cells[cur['ref']]['k'] in ('list', 'tuple') and rng.random() < 0.6:
+                # positions just outside a sequence of length n, on both sides: n, n+1, -n-1, -n-2, -2n, -2n-1, as int or text
+                n = len(cells[cur['ref']]['items'])
+                arg = rng.choice([n, n + 1, -n - 1, -n - 2, -2 * n, -2 * n - 1, -n - 1])
+                if kind == 'P' and rng.random() < 0.6:
+                    arg = str(arg)
             if kind == '.':
                 arg = rng.choice(['q', 'a', 'z'])
             path.append([kind, arg])
@@ -78,6 +84,8 @@ def walk(rng, cells, target, nseg, styles, break_prob):
                 kind = 'P'
             if kind == '[' and what == 'attr':
                 kind = rng.choice(['P', '.'])
+            if what == 'idx' and rng.random() < 0.3:
+                arg = arg - len(cells[cur['ref']]['items'])      # the same element counted from the end
             if what == 'idx' and kind == 'P' and rng.random() < 0.5:
                 arg = str(arg)
             path.append([kind, arg])
